@@ -74,6 +74,17 @@ theorem C12_step_nonincreasing (t window : Nat) (p : K) (hp : 0 ≤ p) (c c' : N
       (L.map fun a => dtwSpec (dbaGrid t a.m window p c a.s)).sum :=
   dba_step_nonincreasing t window p hp c c' L hvalid hpos hmean
 
+/-- … and the alignment the step actually traces (back-tracking from the last cell of the exact matrix,
+C05) meets the hypothesis of `C12_step_nonincreasing`: it is admissible, complete and optimal. -/
+theorem C12_traced_alignment (t m window : Nat) (p : K) (hp : 0 ≤ p) (c s : Nat → K) (ht : 1 ≤ t) (hm : 1 ≤ m)
+    (hfin : dtwSpec (dbaGrid t m window p c s) ≠ ⊤) :
+    ∃ rest,
+      backtrack (D (dbaGrid t m window p c s)) (dbaGrid t m window p c s).pen (t + m) t m = (t - 1, m - 1) :: rest ∧
+      (dbaGrid t m window p c s).ValidRev ((t - 1, m - 1) :: rest) ∧
+      (dbaGrid t m window p c s).EndOk (t - 1, m - 1) ∧
+      (dbaGrid t m window p c s).costRev ((t - 1, m - 1) :: rest) = dtwSpec (dbaGrid t m window p c s) :=
+  dba_traced_alignment t m window p hp c s ht hm hfin
+
 /-- packed bit mask (`np.packbits(mask, bitorder='little')`) read back by `bit_test` -/
 theorem C12_bit_mask : ∀ r < 16, bitTest #[0b10100101, 0b00000011] r =
     [true, false, true, false, false, true, false, true, true, true, false, false, false, false, false, false].getD r false := by
